@@ -329,3 +329,102 @@ def unsupplied_default_nodes(prog, fi, private_only=True):
     if unknown:
         return {}
     return {name: d for name, d in defaults.items() if name not in supplied}
+
+
+def flatten_helpers(prog, fi, depth=2, awaited=False):
+    """a copy of fi's definition in which call STATEMENTS to own helpers -- `self._h(a, b)`, `cls._h(...)`,
+    `Class._h(...)`, a private module-level `_h(...)` of the same module -- are replaced by the helper's body with its
+    parameters renamed to the argument expressions.  Only helpers that return nothing, never re-bind a parameter, whose
+    locals clash with nothing in the caller, called with plain names / attribute chains / constants.  For rules that read
+    the shape of one function (validation before re-targeting, ...): splitting that function into private helpers called
+    in the same order does not change what it does."""
+    import copy
+
+    node = copy.deepcopy(fi.node)
+    cls = fi.cls
+
+    def helper_of(call):
+        f = call.func
+        g = None
+        if isinstance(f, ast.Attribute) and isinstance(f.value, ast.Name) and cls is not None and f.value.id in ("self", "cls", cls.name):
+            g = prog.lookup_method(cls, f.attr)
+            if g is not None and g.cls is None:
+                g = None
+        elif isinstance(f, ast.Name):
+            r = prog.resolve(fi.module, f)
+            g = prog.functions.get(r) if r else None
+            if g is not None and (g.cls is not None or g.module is not fi.module or not g.name.startswith("_")):
+                g = None
+        if g is None or g is fi or g.node.decorator_list and not (g.is_static or g.is_classmethod):
+            return None
+        return g
+
+    def simple(e):
+        return isinstance(e, ast.Constant) or dotted(e) is not None
+
+    def expand(stmts, level, caller_names):
+        out = []
+        for st in stmts:
+            # recurse into compound statements
+            for fld in ("body", "orelse", "finalbody"):
+                sub = getattr(st, fld, None)
+                if isinstance(sub, list) and sub and isinstance(sub[0], ast.stmt) and not isinstance(st, (ast.FunctionDef, ast.AsyncFunctionDef, ast.ClassDef)):
+                    setattr(st, fld, expand(sub, level, caller_names))
+            g = None
+            call = None
+            if isinstance(st, ast.Expr) and isinstance(st.value, ast.Call) and level < depth:
+                call = st.value
+                g = helper_of(call)
+                if g is not None and g.is_async:
+                    g = None  # a coroutine that is created and dropped
+            elif awaited and isinstance(st, ast.Expr) and isinstance(st.value, ast.Await) and isinstance(st.value.value, ast.Call) and level < depth and fi.is_async:
+                # `await self._h(a)` of an own coroutine runs its body right here
+                call = st.value.value
+                g = helper_of(call)
+                if g is not None and not g.is_async:
+                    g = None
+            if g is None:
+                out.append(st)
+                continue
+            a = g.node.args
+            params = [x.arg for x in a.posonlyargs + a.args]
+            if g.cls is not None and not g.is_static:
+                params = params[1:]  # self / cls is the caller's own
+            body = [b for b in g.node.body if not (isinstance(b, ast.Expr) and isinstance(b.value, ast.Constant))]
+            rets = [n for b in body for n in ast.walk(b) if isinstance(n, ast.Return)]
+            ok = (
+                not a.vararg and not a.kwarg and not a.kwonlyargs and not a.defaults
+                and len(call.args) + len(call.keywords) == len(params)
+                and not any(isinstance(x, ast.Starred) for x in call.args) and all(k.arg in params for k in call.keywords)
+                and all(simple(x) for x in list(call.args) + [k.value for k in call.keywords])
+                and not any(r.value is not None and not (isinstance(r.value, ast.Constant) and r.value.value is None) for r in rets)
+                and all(r is body[-1] for r in rets)
+                and not any(isinstance(n, (ast.Yield, ast.YieldFrom, ast.Global, ast.Nonlocal)) for b in body for n in ast.walk(b))
+            )
+            if not ok:
+                out.append(st)
+                continue
+            binding = dict(zip(params, call.args))
+            binding.update({k.arg: k.value for k in call.keywords})
+            stores = {n.id for b in body for n in ast.walk(b) if isinstance(n, ast.Name) and isinstance(n.ctx, (ast.Store, ast.Del))}
+            if stores & set(params) or stores & caller_names:
+                out.append(st)
+                continue
+            new_body = copy.deepcopy([b for b in body if not isinstance(b, ast.Return)])
+
+            class Sub(ast.NodeTransformer):
+                def visit_Name(self, n):
+                    if n.id in binding and isinstance(n.ctx, ast.Load):
+                        return ast.copy_location(copy.deepcopy(binding[n.id]), n)
+                    if n.id == "cls" and g.is_classmethod and cls is not None:
+                        return ast.copy_location(ast.Name(id=cls.name, ctx=ast.Load()), n)
+                    return n
+
+            new_body = [Sub().visit(b) for b in new_body]
+            out.extend(expand(new_body, level + 1, caller_names | stores))
+        return out
+
+    names = {n.id for n in ast.walk(node) if isinstance(n, ast.Name)} | {x.arg for x in ast.walk(node) if isinstance(x, ast.arg)}
+    node.body = expand(node.body, 0, names)
+    ast.fix_missing_locations(node)
+    return node
